@@ -74,8 +74,10 @@ Section Complete.
   Variable G : gram.
   Hypothesis HV : valid G.
   Variables fi fo : list fact.
-  Hypothesis Ef : first_table G = Some fi.
-  Hypothesis Eo : follow_table G fi = Some fo.
+  Variable O : oracle.
+  Hypothesis HO : oracle_ok G O.
+  Hypothesis Ef : first_table G O = Some fi.
+  Hypothesis Eo : follow_table G O fi = Some fo.
   Let M := table_build G fi fo.
   Hypothesis HD : table_deterministic M.
 
@@ -97,8 +99,8 @@ Section Complete.
   Proof.
     intros Hp Hctx H1 H2 input Hw. apply cell_singleton. apply table_build_cell.
     split; [exact Hp|]. split; [reflexivity|]. apply select_In.
-    destruct (first_table_props G fi Ef) as [F1 [F2 F3]].
-    destruct (follow_table_props G fi F1 F2 F3) as [fo' [Eo' [Hc _]]].
+    destruct (first_table_props G O (proj1 (proj2 HO)) fi Ef) as [F1 [F2 F3]].
+    destruct (follow_table_props G fi F1 F2 F3 O (proj2 (proj2 HO))) as [fo' [Eo' [Hc _]]].
     rewrite Eo in Eo'. inversion Eo'; subst fo'.
     pose proof (gen_derives G _ _ _ H1) as D1. pose proof (gen_derives G _ _ _ H2) as D2.
     destruct v1 as [|a v1]; simpl in *.
